@@ -1110,6 +1110,8 @@ class Interp:
         key = self._static_loop_key(node)
         it = self.eval(node.iter, env)
         spec = self.loops.get(key)
+        if spec is not None and isinstance(it, SObj):
+            it = _seqs_of(self, [it])[0]     # a heap stand-in with __iter__ (an onnx_ir Shape of symbolic rank)
         if spec is not None and isinstance(it, (SSeq, RevSeq, SSet)):
             return self._for_with_invariant(node, env, it, spec, key)
         if isinstance(it, Sym) or isinstance(it, (SDict,)):
